@@ -66,5 +66,37 @@ pub fn run(seed: u64, rounds: usize) -> Result<String, String> {
             }
         }
     }
+    // 3. the direct construction for unions of rigid words agrees with successive products
+    for _ in 0..rounds / 4 + 1 {
+        let n = 8 + rng.usize(12);
+        let pool: Vec<u32> = (0..6).map(|_| 0x40 + rng.below(12) as u32).collect();
+        let mut words: Vec<Vec<(u32, u32)>> = Vec::new();
+        for _ in 0..n {
+            let len = rng.usize(4);
+            words.push((0..len).map(|_| { let a = *rng.pick(&pool); let b = *rng.pick(&pool); (a.min(b), a.max(b)) }).collect());
+        }
+        let mut pts = Vec::new();
+        for w in &words {
+            for &(a, b) in w {
+                pts.push(a);
+                pts.push(b);
+            }
+        }
+        let atoms = Atoms::from_points(&pts);
+        let bud = Bud::new(4000, 10_000_000);
+        let direct = Dfa::from_rigid_words(&words, &atoms, &bud).map_err(|_| "budget in selftest".to_string())?;
+        let mut acc = Dfa::none(atoms.n());
+        for w in &words {
+            let mut d = Dfa::eps(atoms.n());
+            for &(x, y) in w {
+                let set: Vec<bool> = (0..atoms.n()).map(|k| x <= atoms.lo[k] && atoms.hi(k) <= y).collect();
+                d = d.cat(&Dfa::sym(atoms.n(), &set), &bud).map_err(|_| "budget in selftest".to_string())?;
+            }
+            acc = acc.prod(&d, false, &bud).map_err(|_| "budget in selftest".to_string())?;
+        }
+        if direct.diff(&acc).is_some() || direct.n() != acc.n() {
+            return Err("direct construction for unions of rigid words disagrees with successive products".into());
+        }
+    }
     Ok(format!("selftest ok: {} random DFAs minimised two ways, {} membership answers compared between oracle A and B", rounds, checked))
 }
